@@ -199,7 +199,7 @@ func tailRejected(fn *ssa.Function, field string) bool {
 		if bi, ok := call.Call.Value.(*ssa.Builtin); !ok || bi.Name() != "len" {
 			continue
 		}
-		if !strings.HasSuffix(core.Path(call.Call.Args[0]), "."+field) {
+		if !strings.HasSuffix(core.Path(core.NormCall(&call.Call).Args[0]), "."+field) {
 			continue
 		}
 		k, okk := core.ConstInt(bin.Y)
@@ -233,7 +233,7 @@ func checkRecover(c *core.Ctx, fn *ssa.Function, rec *core.Site) {
 	// V.BitLen() > 8 is false
 	bitlen := false
 	for _, f := range facts {
-		if cf, ok := f.AsCall(); ok && cf.MethodName() == "BitLen" && core.Unwrap(cf.Call.Call.Args[0]) == V {
+		if cf, ok := f.AsCall(); ok && cf.MethodName() == "BitLen" && core.Unwrap(core.NormCall(&cf.Call.Call).Args[0]) == V {
 			if (cf.Op == token.GTR && cf.Const == 8 && !f.Truth) || (cf.Op == token.LEQ && cf.Const == 8 && f.Truth) || (cf.Op == token.LSS && cf.Const == 9 && f.Truth) {
 				bitlen = true
 			}
@@ -251,7 +251,7 @@ func checkRecover(c *core.Ctx, fn *ssa.Function, rec *core.Site) {
 		c.Bad("C23.sig", key+"/validated", rec.Pos(), "crypto.Ecrecover is reached without a successful crypto.ValidateSignatureValues: high-S and out-of-range signatures would be accepted (malleable encodings of one transaction)")
 		return
 	}
-	args := val.Call.Args
+	args := core.NormCall(&val.Call).Args
 	homestead, _ := core.Unwrap(args[3]).(*ssa.Const)
 	c.Check(homestead != nil && homestead.Value != nil && homestead.Value.String() == "true", "C23.sig", key+"/low-s", val.Pos(), "ValidateSignatureValues is called with homestead = true (s ≤ N/2 enforced)", "ValidateSignatureValues is not called with the constant true: signatures with high S are accepted")
 	c.Check(core.Unwrap(args[1]) == R && core.Unwrap(args[2]) == S, "C23.sig", key+"/same-rs", val.Pos(), "the validated R, S are the function's own R, S", "the values validated are not the R, S that are recovered from")
@@ -260,7 +260,7 @@ func checkRecover(c *core.Ctx, fn *ssa.Function, rec *core.Site) {
 	if cv, ok := args[0].(*ssa.Convert); ok {
 		if bin, ok := cv.X.(*ssa.BinOp); ok && bin.Op == token.SUB {
 			if k, ok := core.ConstInt(bin.Y); ok && k == 27 {
-				if call, ok := core.Unwrap(bin.X).(*ssa.Call); ok && core.CalleeName(&call.Call) == "(*math/big.Int).Uint64" && core.Unwrap(call.Call.Args[0]) == V {
+				if call, ok := core.Unwrap(bin.X).(*ssa.Call); ok && core.CalleeName(core.NormCall(&call.Call)) == "(*math/big.Int).Uint64" && core.Unwrap(core.NormCall(&call.Call).Args[0]) == V {
 					vOK = true
 				}
 			}
@@ -283,11 +283,11 @@ func checkRecover(c *core.Ctx, fn *ssa.Function, rec *core.Site) {
 				if !ok {
 					continue
 				}
-				if bi, ok := call.Call.Value.(*ssa.Builtin); !ok || bi.Name() != "copy" || call.Call.Args[0] != ssa.Value(sl) {
+				if bi, ok := call.Call.Value.(*ssa.Builtin); !ok || bi.Name() != "copy" || core.NormCall(&call.Call).Args[0] != ssa.Value(sl) {
 					continue
 				}
-				for _, o := range core.Origins(call.Call.Args[1]) {
-					if src, ok := o.(*ssa.Call); ok && core.CalleeName(&src.Call) == "(*math/big.Int).Bytes" && core.Unwrap(src.Call.Args[0]) == p {
+				for _, o := range core.Origins(core.NormCall(&call.Call).Args[1]) {
+					if src, ok := o.(*ssa.Call); ok && core.CalleeName(core.NormCall(&src.Call)) == "(*math/big.Int).Bytes" && core.Unwrap(core.NormCall(&src.Call).Args[0]) == p {
 						return true
 					}
 				}
@@ -330,10 +330,10 @@ func checkValidateSig(c *core.Ctx) {
 			continue
 		}
 		call, ok := core.Unwrap(bin.X).(*ssa.Call)
-		if !ok || core.CalleeName(&call.Call) != "(*math/big.Int).Cmp" || core.Unwrap(call.Call.Args[0]) != s {
+		if !ok || core.CalleeName(core.NormCall(&call.Call)) != "(*math/big.Int).Cmp" || core.Unwrap(core.NormCall(&call.Call).Args[0]) != s {
 			continue
 		}
-		if g, ok := core.Unwrap(call.Call.Args[1]).(*ssa.UnOp); !ok || !strings.Contains(g.X.Name(), "halfN") {
+		if g, ok := core.Unwrap(core.NormCall(&call.Call).Args[1]).(*ssa.UnOp); !ok || !strings.Contains(g.X.Name(), "halfN") {
 			continue
 		}
 		if k, ok := core.ConstInt(bin.Y); !ok || k != 0 {
